@@ -8,7 +8,8 @@ from common import cps, drv
 import disklib as D
 import tapelib as T
 
-FILE_Q = re.compile(r"^  (?P<name>[^.]*)\.(?P<ext>.*?)(?P<dots>\.\.\.)?(?P<res>ok|too big|ignored)?$")
+# the catalog name may itself hold dots (PROG.V2.BAS): the extension is what follows the last one, three characters at most
+FILE_Q = re.compile(r"^  (?P<name>.*?)\.(?P<ext>[^.]{0,3}?)(?P<dots>\.\.\.)?(?P<res>ok|too big|ignored)?$")
 FILE_V = re.compile(r"^  (?P<name>.{0,8}?)\.(?P<ext>.{0,3}?)  (?P<tof>\S+) +(?P<tod>\S+) *(?P<dots>\.{6})?"
                     r"(?:  +(?P<bytes>\d+) Byte(?P<bs>s| )    +(?P<blocks>\d+) block(?P<ks>s| )|(?P<res>too big|ignored))?$")
 COUNT_V = re.compile(r"^(?:empty|(?P<n>\d+) file(?P<s>s?)), (?:\((?P<res>\d+) \+ (?P<used>\d+)\) blocks? used|(?P<blocks>\d+) block(?P<ks>s?) (?P<verb>read|written)) \((?P<pct>[\d.]+%)\)$")
@@ -98,6 +99,8 @@ class Scenario:
         with open(full, "wb") as f:
             f.write(content)
         rel = os.path.join(sub, path) if sub else path
+        # a path written again (a newer version of a source, offered by a later step) replaces what the world held for it
+        self.world = [(r, c) for r, c in self.world if r != rel]
         self.world.append((rel, content))
         return os.path.join(sub, name) if sub else name
 
